@@ -67,6 +67,16 @@ print(json.dumps(res))
 '''
 
 
+def wire_content(content, mode):
+    """what travels on the wire: the bytes themselves, or their netascii form (LF -> CR LF, CR -> CR NUL)"""
+    if mode != 'netascii':
+        return content
+    out = bytearray()
+    for ch in content:
+        out += b'\r\n' if ch == 10 else b'\r\0' if ch == 13 else bytes([ch])
+    return bytes(out)
+
+
 def boards_overlap(ctx):
     """the real BootHandler in-process: boards sharing one image file on different partitions, and a board on another
     image, transfer the same file names at the same time in seeded interleavings; each must receive its own volume's bytes"""
@@ -162,12 +172,20 @@ def run(ctx, build):
         for k in range(3):
             ln = rng.choice([0, 1, 15, 16, 17, 100, 512, 513, 1100])
             files[f'f{k}'] = bytes((j * (k + 3) + k) % 256 for j in range(ln))
+        texts = []
+        for k in range(2):          # ASCII text for the netascii clients (the transcoder decodes its source as ASCII)
+            ln = rng.choice([0, 1, 40, 511, 600, 1500])
+            files[f't{k}'] = bytes(rng.choice(b'abcdefgh \n\n\r\t.') for _ in range(ln))
+            texts.append(f't{k}')
         clients = []
         for cid in range(1, N + 1):
             opts = {}
             if rng.random() < 0.7:
                 opts['blksize'] = rng.choice([8, 16, 512, 1468])
-            clients.append(RfcClient(cid, rng.choice(list(files)), 'octet', opts))
+            if rng.random() < 0.3:
+                clients.append(RfcClient(cid, rng.choice(texts), 'netascii', opts))
+            else:
+                clients.append(RfcClient(cid, rng.choice(list(files)), 'octet', opts))
         stalled = tuple(c.cid for c in clients if rng.random() < 0.25)
         profile = dict(drop=rng.choice([0, .1]), dup=rng.choice([0, .1]), reorder=rng.choice([.3, .8]),
                        tick=rng.choice([0, .1]), foreign=rng.choice([0, .05]), rrq_again=0.02, client_retx=0.05,
@@ -182,7 +200,7 @@ def run(ctx, build):
             c = bycid[cid]
             B = sub.client_state.block_size
             k = b[2] * 256 + b[3]
-            content = files[c.filename]
+            content = wire_content(files[c.filename], c.mode)
             if b[4:] != content[(k - 1) * B:k * B]:
                 ctx.violation('tftpd.concurrent/wrong-bytes',
                               f'transfer {from_tid} for client {cid} ({c.filename}) sent block {k} with foreign/incorrect bytes',
@@ -191,11 +209,12 @@ def run(ctx, build):
         try:
             ctx.case(repr(S.events), nontrivial=(len(S.sim.subs) >= 2 or N >= 2), kind=f'N={N}')
             for c in clients:
-                if c.finished and bytes(c.buf) != files[c.filename]:
+                want = wire_content(files[c.filename], c.mode)
+                if c.finished and bytes(c.buf) != want:
                     ctx.violation('tftpd.concurrent/client-got-wrong-file',
-                                  f'client {c.cid} finished {c.filename} with {len(c.buf)} bytes (file has {len(files[c.filename])})',
+                                  f'client {c.cid} finished {c.filename} ({c.mode}) with {len(c.buf)} bytes (expected {len(want)})',
                                   dict(events=[list(e) for e in S.events], client=c.cid))
-                if not c.finished and bytes(c.buf) != files[c.filename][:len(c.buf)]:
+                if not c.finished and bytes(c.buf) != want[:len(c.buf)]:
                     ctx.violation('tftpd.concurrent/client-prefix', f'client {c.cid} holds bytes that are not a prefix of its file',
                                   dict(events=[list(e) for e in S.events], client=c.cid))
                 if c.finished:
@@ -205,7 +224,10 @@ def run(ctx, build):
             if len(out) != 1 or out[0][1][:4] != b'\0\3\0\1' or out[0][1][4:] != files['f0'][:512]:
                 ctx.violation('tftpd.concurrent/listener-dead', f'fresh request while {len(S.sim.subs)} transfers are live got {out}',
                               dict(events=[list(e) for e in S.events[-20:]]))
-            S.compare(ctx, R, 'tftpd.concurrent')
+            if all(c.mode == 'octet' for c in clients):
+                S.compare(ctx, R, 'tftpd.concurrent')      # the session model serves octet sources (netascii streams: C16)
+            else:
+                ctx.stat('sessions-with-netascii-oracle-only')
             if i == 0:
                 ctx.sample(dict(N=N, stalled=list(stalled), n_events=len(S.events)))
         finally:
